@@ -13,6 +13,7 @@ import NixModel.Props.C12Copies
 import NixModel.Props.C12Frames
 import NixModel.Props.C12PropCreate
 import NixModel.Props.C12Roles
+import NixModel.Props.C12Attrs
 
 /-!
 # C12 — a refused operation leaves the file exactly as it was
